@@ -29,7 +29,6 @@ type Prop struct {
 	RunJob      func(tier, job string, from int, em *Emitter) // worker side
 	Budget      func(tier string) time.Duration
 	Workers     int
-	ReplayCase  func(job string, c json.RawMessage) []string // re-run one recorded case, return its signatures
 }
 
 var Props = map[string]*Prop{}
@@ -65,11 +64,26 @@ type Emitter struct {
 	fs        *findings.Set
 	prop      string
 	n         int
+	// replay mode: run only the case whose replay description equals target
+	replayTarget string
+	replaySigs   []string
+	replayHit    bool
 }
 
 // Begin announces the case about to run (crash attribution).  It returns false if the
 // case must be skipped (deadline, or it matches a saturated crashing known finding).
 func (e *Emitter) Begin(idx int, atoms []string, replay interface{}) bool {
+	if e.replayTarget != "" {
+		b, _ := json.Marshal(replay)
+		var norm interface{}
+		json.Unmarshal(b, &norm)
+		nb, _ := json.Marshal(norm)
+		if string(nb) != e.replayTarget || e.replayHit {
+			return false
+		}
+		e.replayHit = true
+		return true
+	}
 	e.n++
 	if e.n%64 == 0 && time.Now().After(e.deadline) {
 		e.sum.Capped = true
@@ -121,6 +135,9 @@ func (e *Emitter) Capped() bool { return e.sum.Capped }
 
 // Done records a finished case.
 func (e *Emitter) Done(nontrivial bool) {
+	if e.replayTarget != "" {
+		return
+	}
 	if nontrivial {
 		e.w.WriteString("E 1\n")
 	} else {
@@ -150,6 +167,10 @@ func (e *Emitter) Sample(v interface{}) {
 
 // Fail records failure signatures of the current case.
 func (e *Emitter) Fail(atoms []string, sigs []string, replay interface{}) {
+	if e.replayTarget != "" {
+		e.replaySigs = append(e.replaySigs, sigs...)
+		return
+	}
 	for _, s := range sigs {
 		k := s + "\x00" + strings.Join(atoms, ",")
 		g := &group{Sig: s, Atoms: atoms, Job: e.job, Count: 1}
